@@ -446,6 +446,41 @@ def _simulate(sc, chooser, faults, with_inject):
                         mode, type(ex).__name__, ex)
                     return
                 obs['disc'].append(r)
+                if r:
+                    # a discovery that reports success under faults: what it
+                    # recorded must be what bulbs really reported
+                    try:
+                        after = world.snapshot_directory(ls)
+                    except core.SimAbort:
+                        raise
+                    except Exception as ex:
+                        obs['bad_success'] = (
+                            'the directory cannot be listed: {}: {}'.format(
+                                type(ex).__name__, ex))
+                    else:
+                        real_g = {b.group for b in net.bulbs} | \
+                            {p.get('group') for p in pop}
+                        real_l = {b.location for b in net.bulbs} | \
+                            {p.get('location') for p in pop}
+                        odd = [g for g in after['groups']
+                               if g not in real_g] + \
+                            [g for g in after['locations']
+                             if g not in real_l]
+                        if odd:
+                            obs['bad_success'] = (
+                                'it lists groups/locations {!r} that no bulb '
+                                'ever reported (groups {}, locations {})'
+                                .format(odd, sorted(after['groups']),
+                                        sorted(after['locations'])))
+                        for n in after['names']:
+                            ng = [g for g, m in after['groups'].items()
+                                  if n in m]
+                            nl = [g for g, m in after['locations'].items()
+                                  if n in m]
+                            if len(ng) != 1 or len(nl) != 1:
+                                obs['bad_success'] = (
+                                    'light {!r} is listed under groups {} and '
+                                    'locations {}'.format(n, ng, nl))
                 if not r:
                     after = world.snapshot_directory(ls)
                     if after != before:
@@ -735,6 +770,11 @@ def execute(scenario, chooser):
     if run['thread_died']:
         violation('refresh-thread-died', run['thread_died'])
         return res
+    if run.get('bad_success'):
+        violation('successful-discovery-recorded-garbage',
+                  'a discovery that reported success although requests went '
+                  'unanswered left a wrong directory: {} ({})'.format(
+                      run['bad_success'], _describe(sc)))
     if run['dir_changed_on_failure'] is not None:
         violation('failed-discovery-changed-directory',
                   'a discovery that reported failure changed the directory '
